@@ -351,6 +351,8 @@ class _Threader:
         """-> True / False / simplified expr"""
         if isinstance(e, ast.Name) and isinstance(env.get(e.id), ast.Constant):
             return bool(env[e.id].value)
+        if isinstance(e, ast.Name) and isinstance(env.get(e.id), tuple):
+            return True  # a function object
         if isinstance(e, ast.UnaryOp) and isinstance(e.op, ast.Not):
             v = self.ev(e.operand, env)
             if isinstance(v, bool):
@@ -397,6 +399,7 @@ class _Threader:
             if isinstance(st, ast.Assign) and len(st.targets) == 1 and isinstance(st.targets[0], ast.Name) \
                     and st.targets[0].id in self.flags:
                 name = st.targets[0].id
+                self._subst_alias_calls(st, env)
                 v = st.value
                 if isinstance(v, ast.Name) and v.id in env and isinstance(env[v.id], ast.Constant):
                     v = env[v.id]
@@ -406,6 +409,8 @@ class _Threader:
                         v = ast.copy_location(ast.Constant(value=r), v)
                 if isinstance(v, ast.Constant):
                     env[name] = v
+                elif getattr(v, "_known_callable", False):
+                    env[name] = ("alias", v)
                 elif _definitely_not_none(v, env):
                     env[name] = NONNONE
                 else:
@@ -440,6 +445,7 @@ class _Threader:
                     env = {k: v for k, v in e1.items() if k in e2 and self._same(v, e2[k])}
                 continue
             if isinstance(st, ast.Return):
+                self._subst_alias_calls(st, env)
                 if isinstance(st.value, ast.Name) and isinstance(env.get(st.value.id), ast.Constant):
                     st.value = ast.copy_location(copy.deepcopy(env[st.value.id]), st.value)
                     self.changed += 1
@@ -483,11 +489,25 @@ class _Threader:
                 else:
                     env = e1
                 continue
+            if isinstance(st, (ast.Assign, ast.Expr, ast.AugAssign, ast.AnnAssign)):
+                self._subst_alias_calls(st, env)
+                # a plain assignment to a flag handled above; other stores to tracked names cannot occur (only_plain)
             out.append(st)
         return out, env
 
+    def _subst_alias_calls(self, st, env):
+        al = {k: v[1] for k, v in env.items() if isinstance(v, tuple)}
+        if not al:
+            return
+        for n in ast.walk(st):
+            if isinstance(n, ast.Call) and isinstance(n.func, ast.Name) and n.func.id in al:
+                n.func = ast.copy_location(copy.deepcopy(al[n.func.id]), n.func)
+                self.changed += 1
+
     @staticmethod
     def _same(a, b):
+        if isinstance(a, tuple) or isinstance(b, tuple):
+            return isinstance(a, tuple) and isinstance(b, tuple) and ast.dump(a[1]) == ast.dump(b[1])
         if a is NONNONE or b is NONNONE:
             return a is b
         return isinstance(a, ast.Constant) and isinstance(b, ast.Constant) and type(a.value) is type(b.value) and a.value == b.value
@@ -545,7 +565,8 @@ class _Threader:
             new = []
             for st in stmts:
                 if isinstance(st, ast.Assign) and len(st.targets) == 1 and isinstance(st.targets[0], ast.Name) \
-                        and st.targets[0].id in dead and isinstance(st.value, (ast.Constant, ast.Name)):
+                        and st.targets[0].id in dead and (isinstance(st.value, (ast.Constant, ast.Name))
+                                                          or getattr(st.value, "_known_callable", False)):
                     self.changed += 1
                     continue
                 for field, blk in list(_blocks(st)):
@@ -1013,6 +1034,169 @@ def for_over_genexp(fn):
 
 
 # ---------------------------------------------------------------------------
+# N7 constant dispatch tables
+# ---------------------------------------------------------------------------
+def desugar_dispatch(tree):
+    """`v = TABLE.get(k[, default])` with TABLE a module- or class-level dict literal with constant keys that is bound
+    once and never mutated -> `if k == K1: v = V1 elif k in (K2, K3): v = V2 else: v = default`.
+    Function-valued entries of a class-level table become `Class.function` (marked as known callables)."""
+    n_done = 0
+
+    def table_of(assign_value, funcs, clsname):
+        if not isinstance(assign_value, ast.Dict) or not assign_value.keys:
+            return None
+        out = []
+        for k, v in zip(assign_value.keys, assign_value.values):
+            if not (isinstance(k, ast.Constant) and isinstance(k.value, (str, int)) and not isinstance(k.value, bool)):
+                return None
+            if isinstance(v, ast.Constant):
+                out.append((k, v))
+            elif isinstance(v, ast.Name) and v.id in funcs:
+                if clsname is not None:
+                    ref = ast.Attribute(value=ast.Name(id=clsname, ctx=ast.Load()), attr=v.id, ctx=ast.Load())
+                else:
+                    ref = ast.Name(id=v.id, ctx=ast.Load())
+                ref._known_callable = True
+                out.append((k, ref))
+            else:
+                return None
+        return out
+
+    def scan(body, clsname):
+        funcs = {s.name for s in body if isinstance(s, ast.FunctionDef)}
+        tabs = {}
+        for st in body:
+            if isinstance(st, ast.Assign) and len(st.targets) == 1 and isinstance(st.targets[0], ast.Name):
+                t = table_of(st.value, funcs, clsname)
+                if t is not None:
+                    tabs[st.targets[0].id] = t
+        return tabs
+    mod_tabs = scan(tree.body, None)
+    cls_tabs = {}
+    for st in tree.body:
+        if isinstance(st, ast.ClassDef):
+            for name, t in scan(st.body, st.name).items():
+                cls_tabs[(st.name, name)] = t
+    if not mod_tabs and not cls_tabs:
+        return 0
+    # a table that is stored to / mutated / passed around anywhere is left alone
+    def uses_ok(name, is_attr):
+        for n in ast.walk(tree):
+            ref = None
+            if is_attr and isinstance(n, ast.Attribute) and n.attr == name:
+                ref = n
+            elif not is_attr and isinstance(n, ast.Name) and n.id == name:
+                ref = n
+            if ref is None:
+                continue
+            if isinstance(ref.ctx, (ast.Store, ast.Del)):
+                if is_attr:
+                    return False
+                continue  # the defining assignment (single, checked by the caller)
+            ref._dispatch_ref = True
+        return True
+    for (cls, name) in list(cls_tabs):
+        if not uses_ok(name, True):
+            del cls_tabs[(cls, name)]
+    for name in list(mod_tabs):
+        stores = [n for n in ast.walk(tree) if isinstance(n, ast.Name) and n.id == name and isinstance(n.ctx, (ast.Store, ast.Del))]
+        if len(stores) != 1 or not uses_ok(name, False):
+            del mod_tabs[name]
+
+    def lookup(call, clsname, selfname):
+        f = call.func
+        if not (isinstance(f, ast.Attribute) and f.attr == "get" and 1 <= len(call.args) <= 2 and not call.keywords):
+            return None
+        t = f.value
+        if isinstance(t, ast.Name) and t.id in mod_tabs:
+            return mod_tabs[t.id]
+        if isinstance(t, ast.Attribute) and isinstance(t.value, ast.Name) and clsname is not None \
+                and t.value.id in (clsname, selfname) and (clsname, t.attr) in cls_tabs:
+            return cls_tabs[(clsname, t.attr)]
+        return None
+
+    def rec(stmts, clsname, selfname):
+        nonlocal n_done
+        out = []
+        for st in stmts:
+            for field, blk in list(_blocks(st)):
+                if field != "handler":
+                    setattr(st, field, rec(blk, clsname, selfname))
+            if isinstance(st, ast.Try):
+                for h in st.handlers:
+                    h.body = rec(h.body, clsname, selfname)
+            if isinstance(st, ast.Assign) and len(st.targets) == 1 and isinstance(st.targets[0], ast.Name) and isinstance(st.value, ast.Call):
+                tab = lookup(st.value, clsname, selfname)
+                key = st.value.args[0] if st.value.args else None
+                if tab is not None and isinstance(key, ast.Name):
+                    default = st.value.args[1] if len(st.value.args) == 2 else ast.Constant(value=None)
+                    if isinstance(default, ast.Attribute) and isinstance(default.value, ast.Name) and default.value.id == clsname:
+                        default._known_callable = True  # Class.method: a function of the class body
+                    groups = []
+                    for k, v in tab:
+                        for g in groups:
+                            if ast.dump(g[1]) == ast.dump(v):
+                                g[0].append(k)
+                                break
+                        else:
+                            groups.append(([k], v))
+                    tgt = st.targets[0]
+
+                    def asg(v):
+                        vv = copy.deepcopy(v)
+                        if getattr(v, "_known_callable", False):
+                            vv._known_callable = True
+                        a = ast.Assign(targets=[ast.Name(id=tgt.id, ctx=ast.Store())], value=vv)
+                        return ast.copy_location(a, st)
+                    chain = [asg(default)]
+                    for ks, v in reversed(groups):
+                        if len(ks) == 1:
+                            test = ast.Compare(left=copy.deepcopy(key), ops=[ast.Eq()], comparators=[copy.deepcopy(ks[0])])
+                        else:
+                            test = ast.Compare(left=copy.deepcopy(key), ops=[ast.In()],
+                                               comparators=[ast.Tuple(elts=[copy.deepcopy(k) for k in ks], ctx=ast.Load())])
+                        iff = ast.If(test=test, body=[asg(v)], orelse=chain)
+                        ast.copy_location(iff, st)
+                        chain = [iff]
+                    for c in chain:
+                        ast.fix_missing_locations(c)
+                    out.extend(chain)
+                    n_done += 1
+                    continue
+            out.append(st)
+        return out
+    for st in tree.body:
+        if isinstance(st, ast.FunctionDef):
+            st.body = rec(st.body, None, None)
+        elif isinstance(st, ast.ClassDef):
+            for m in st.body:
+                if isinstance(m, ast.FunctionDef):
+                    decos = [d.id for d in m.decorator_list if isinstance(d, ast.Name)]
+                    selfname = m.args.args[0].arg if "staticmethod" not in decos and m.args.args else None
+                    m.body = rec(m.body, st.name, selfname)
+    if n_done:
+        # a table that is no longer read anywhere is dropped (so helpers only it referenced can go too)
+        def still_read(name, is_attr):
+            for n in ast.walk(tree):
+                if is_attr and isinstance(n, ast.Attribute) and n.attr == name and isinstance(n.ctx, ast.Load):
+                    return True
+                if isinstance(n, ast.Name) and n.id == name and isinstance(n.ctx, ast.Load):
+                    return True
+            return False
+        for name in list(mod_tabs):
+            if not still_read(name, False):
+                tree.body = [s for s in tree.body if not (isinstance(s, ast.Assign) and len(s.targets) == 1
+                                                          and isinstance(s.targets[0], ast.Name) and s.targets[0].id == name)]
+        for (cls, name) in list(cls_tabs):
+            if not still_read(name, True):
+                for st in tree.body:
+                    if isinstance(st, ast.ClassDef) and st.name == cls:
+                        st.body = [s for s in st.body if not (isinstance(s, ast.Assign) and len(s.targets) == 1
+                                                              and isinstance(s.targets[0], ast.Name) and s.targets[0].id == name)] or [ast.Pass()]
+    return n_done
+
+
+# ---------------------------------------------------------------------------
 # N0 negation normal form of tests
 # ---------------------------------------------------------------------------
 _FLIP = {ast.Is: ast.IsNot, ast.IsNot: ast.Is, ast.In: ast.NotIn, ast.NotIn: ast.In}
@@ -1065,6 +1249,9 @@ def normalize_module(tree, property_names=None):
     """in place; -> dict of counters (generator helpers are inlined program-wide before this); property_names: attribute
     names that are properties of the package (None: attribute reads are never moved)"""
     stats = {}
+    k = desugar_dispatch(tree)
+    if k:
+        stats["dispatch_tables"] = k
     for fn in [x for x in ast.walk(tree) if isinstance(x, ast.FunctionDef)]:
         k = for_over_genexp(fn)
         if k:
